@@ -314,10 +314,22 @@ static J gen_unsupported(Chooser &ch)
 {
   g::Opt o;
   J c = J::obj();
-  const int which = static_cast<int>(ch.range(0, 3));
+  const int which = static_cast<int>(ch.range(0, 4));
   std::string what, sig;
   J root;
-  if (which == 0)
+  if (which == 4)
+    {
+      // the world-level interpolation option with a value outside its option list (features keep their default "global")
+      g::Frame fr = g::gen_frame(ch, o);
+      root = base_world(fr);
+      g::Opt none; none.grains = false; none.velocity = false;
+      g::FM m;
+      const std::string type = ch.pick<std::string>({"continental plate", "oceanic plate", "mantle layer", "subducting plate", "fault"});
+      root["features"] = J::arr({type == "subducting plate" || type == "fault" ? g::line_feature(ch, fr, none, type, g::gen_centre(ch, fr), 0, m) : g::area_feature(ch, fr, none, type, g::gen_centre(ch, fr), 0, m)});
+      root["interpolation"] = ch.pick<std::string>({"bogus", "cubic spline", "", "Continuous Monotone Spline ", "splines"});
+      what = "world-level \"interpolation\": \"" + root["interpolation"].str() + "\", which is none of the documented options"; sig = "unknown-interpolation";
+    }
+  else if (which == 0)
     {
       g::Frame fr; fr.sph = true; fr.R = 6371e3; fr.depth_method = "continuous";
       root = base_world(fr);
@@ -538,7 +550,7 @@ int main(int argc, char **argv)
   {
     {"schema_violation", "valid generated world + one injected violation of the schema emitted by the tree under test (unknown key where additionalProperties=false, removed required key, wrong JSON type, value outside an enum, wrong version) at a random site of the document; must throw std::exception with a message. Non-trivial: an injection site existed", 150, gen_schema_violation, check_schema_violation, 100, true, true},
     {"list_lengths", "single-feature worlds in which exactly one of the documented parallel lists has a different length (fractions, plume section tables, gaussian tables, smooth fractions, random min/max, grains lists, spreading velocities per ridge point, section entries for missing coordinates, depth value points with one or three coordinates); must throw", 120, gen_list_lengths, check_must_throw, 100, true, true},
-    {"unsupported_option", "depth method 'continuous'; tian water content with an undocumented lithology; mass conserving with an undocumented reference model name; must throw", 60, gen_unsupported, check_must_throw, 100, true, true},
+    {"unsupported_option", "depth method 'continuous'; tian water content with an undocumented lithology; mass conserving with an undocumented reference model name; a world-level interpolation value outside the option list; must throw", 60, gen_unsupported, check_must_throw, 100, true, true},
     {"formatting", "one valid world emitted in two styles (indentation, // and /* */ comments, permuted keys, exponent / trailing-zero numbers): both accepted, answers bit-identical at 12 points", 80, gen_formatting, check_formatting, 100, true, true},
     {"extreme_numbers", "schema-valid worlds with 1..3 numbers replaced by 0, -1, 1e-300, +-1e308, NaN/Infinity literals, sign flips, x1e6 and occasionally emptied/shortened lists: construction throws or succeeds, queries return or throw; each case in its own process, a crash is a failure", 200, gen_extreme, check_extreme, 100, true, true},
     {"text_shapes", "texts that are extreme in shape rather than content: 3 .. 2 000 000 nested brackets / objects (unbalanced, balanced, as a value inside a valid world, as the coordinates), strings, keys and numbers of that many characters, arrays of that many points, that many comments; construction throws or succeeds (each case in its own process, a stack overflow is a crash). Non-trivial: n >= 900", 40, gen_shape, check_shape, 100, true, true},
